@@ -12,7 +12,7 @@ def task_body(depth: int):
     sleep = st.builds(lambda t: {"k": "sleep", "t": t}, st.sampled_from([0.25, 0.5, 1, 2, 3]))
     wait = st.builds(lambda g: {"k": "wait", "gate": g}, st.integers(0, 3))
     simple = st.one_of(sleep, sleep, wait, st.just({"k": "yield"}), st.just({"k": "probe", "lookups": [], "fp": True}))
-    fail = st.builds(lambda e: {"k": "raise", "exc": e}, st.sampled_from(["Exception", "ExcSubclass", "FalsyExc"]))
+    fail = st.builds(lambda e: {"k": "raise", "exc": e}, st.sampled_from(["Exception", "ExcSubclass", "FalsyExc", "StrRaisesExc", "FrozenExc", "EmptyExc"]))
     ops = [simple, simple]
     if depth > 0:
         # cleanup code of a spawned task that spawns a follow-up task (runs also while the group is shutting down)
@@ -49,6 +49,7 @@ def fault_disp():
         st.just({"b": "raise"}),
         st.builds(lambda t: {"b": "suspend_ok", "t": t}, times),
         st.builds(lambda t: {"b": "suspend_raise", "t": t}, times),
+        st.builds(lambda t: {"b": "suspend_ok", "t": t, "absorb": True}, times),
     )
     # entering may start a background task of the resource (blocked until released) - before / while other disposables enter
     enter_beh = st.one_of(
@@ -71,7 +72,7 @@ def program(disp_faults: bool = True, body_raises: bool = True, max_leaves: int 
     probe = st.just({"k": "probe", "lookups": [], "fp": True})
     sleep = st.builds(lambda t: {"k": "sleep", "t": t}, st.sampled_from([0.25, 0.5, 1, 2]))
     spawn = st.builds(lambda v, b: {"k": "spawn", "via": v, "body": b}, st.sampled_from(["ctx", "ctx", "ctx", "asyncio"]), task_body(1))
-    raise_ = st.builds(lambda e: {"k": "raise", "exc": e}, st.sampled_from(["Exception", "ExcSubclass", "BaseExc", "FalsyExc", "GenExit", "OwnCancelled"]))
+    raise_ = st.builds(lambda e: {"k": "raise", "exc": e}, st.sampled_from(["Exception", "ExcSubclass", "BaseExc", "FalsyExc", "GenExit", "OwnCancelled", "StrRaisesExc", "FrozenExc", "EmptyExc"]))
     leaf_ops = st.one_of(probe, sleep, spawn, spawn, st.just({"k": "yield"}))
     # (without faults:) disposables that always succeed, some of which start a background task of their own while entering
     spawning = st.builds(lambda d, g: {**d, "enter": {**d["enter"], "spawn": g}}, P.simple_disp_strategy(), st.integers(0, 3))
@@ -142,6 +143,47 @@ def resource_program():
             "releases": [],
         },
         st.integers(1, 2), st.integers(0, 2), end, st.booleans(),
+    )  # fmt: skip
+
+
+def failing_body_program():
+    """a block whose body spawns tasks that never finish on their own and then fails with one of EVERY kind of exception
+    the family knows (unrenderable, frozen, message-less, falsy, not an Exception, its own CancelledError ...): the tasks are
+    cancelled and awaited before the block is left, whatever the exception looks like"""
+    from hv.progs import EXC
+
+    return st.builds(
+        lambda exc, n_tasks, pause, mode, via: {
+            "body": [
+                {"k": "scope", "mode": "async", "name": "root", "state": [{"type": "A", "v": 1}], "disp": None, "disp_obj": False, "body": [
+                    {"k": "scope", "mode": "async", "name": "s", "state": [{"type": "B", "v": 2}], "disp_obj": False,
+                     "disp": None if mode == 0 else [{"enter": {"b": "ok"}, "yields": None, "exit": {"b": "suspend_ok", "t": 0.25}, "as": "list"}],
+                     "body": [*[{"k": "spawn", "via": via, "body": [{"k": "wait", "gate": 7}]} for _ in range(n_tasks)], *([{"k": "yield"}] * pause), {"k": "raise", "exc": exc}]},
+                    {"k": "probe", "lookups": [], "fp": True},
+                ]},
+                {"k": "probe", "lookups": [], "fp": True},
+            ],
+            "releases": [],
+        },
+        st.sampled_from(sorted(EXC)), st.integers(1, 2), st.integers(0, 2), st.integers(0, 1), st.sampled_from(["ctx", "ctx", "asyncio"]),
+    )  # fmt: skip
+
+
+def absorbing_disposable_program():
+    """a scope with one or two disposables whose set-up / cleanup suspends and shrugs an interruption off, and spawned tasks:
+    a cancellation that arrives while the scope is entering or leaving is still the scope's (and ends its tasks)"""
+    ab = st.sampled_from([{"b": "suspend_ok", "t": 0.5, "absorb": True}, {"b": "suspend_ok", "t": 0.5, "absorb": True}, {"b": "ok"}, {"b": "suspend_ok", "t": 0.5}])
+    return st.builds(
+        lambda n, enters, exits, n_tasks, pause, e: {
+            "body": [
+                {"k": "scope", "mode": "async", "name": "s", "state": [], "disp_obj": False,
+                 "disp": [{"enter": enters[j], "yields": None, "exit": exits[j], "as": "list"} for j in range(n)],
+                 "body": [*[{"k": "spawn", "via": "ctx", "body": [{"k": "sleep", "t": 2}]} for _ in range(n_tasks)], *([{"k": "yield"}] * pause), *([e] if e else [])]},
+                {"k": "probe", "lookups": [], "fp": True},
+            ],
+            "releases": [],
+        },
+        st.integers(1, 2), st.tuples(ab, ab), st.tuples(ab, ab), st.integers(0, 2), st.integers(0, 1), st.sampled_from([None, None, {"k": "raise", "exc": "Exception"}]),
     )  # fmt: skip
 
 
